@@ -597,6 +597,19 @@ class StartStageHandler(
                     # Builder-built tasks already exist: someone else's plan won.
                     logger.debug("Stage %s was planned by another worker, dropping this plan", stage.name)
                     return
+                if fresh.start_time != stage.start_time or any(
+                    t.status != WorkflowStatus.NOT_STARTED for t in fresh.tasks
+                ):
+                    # RUNNING again, but not on this handler's claim: the stage was
+                    # canceled / re-armed and claimed anew while this plan was being
+                    # built (the claim stamps start_time), or its tasks are already
+                    # under way. Writing the stale plan would set them back to
+                    # NOT_STARTED and start them a second time.
+                    logger.warning(
+                        "Stage %s was re-armed and started by another handler while being planned, dropping the plan",
+                        stage.name,
+                    )
+                    return
                 for key, value in fresh.context.items():
                     if key not in context_at_claim or context_at_claim[key] != value:
                         stage.context[key] = value
